@@ -412,3 +412,19 @@ pub proof fn lemma_lt_gt_empty<K, V, C: Fn(&K, &K) -> Ordering>(c: C, s: Seq<(K,
         assert(ord(c, key, s[0].0) == Ordering::Greater);
     }
 }
+
+// ---- consuming iterator ---------------------------------------------------------------------
+impl<K, V> IntoIter<K, V> {
+    // what is still to be yielded, front to back
+    pub closed spec fn seq(&self) -> Seq<(K, V)> {
+        inorder(self.cur)
+    }
+
+    pub closed spec fn rem(&self) -> usize {
+        self.remaining
+    }
+
+    pub open spec fn wf(&self) -> bool {
+        self.rem() == self.seq().len()
+    }
+}
